@@ -89,9 +89,18 @@ def _trajectory(prog, gates, N, rho, record):
     return rho, logp, random_then_gate, ptr
 
 
+def _compile_before(case):
+    """history variant: compile() was called on the prefix before one of the measurements was appended (index into the measure items)."""
+    j = case.get('early')
+    idx = [i for i, g in enumerate(case['prog']) if g['kind'] == 'measure']
+    if j is None or not idx:
+        return None
+    return idx[j % len(idx)]
+
+
 def f_circuit_forward(case):
     N, prog = case['N'], case['prog']
-    circ, gates = SO.build_circuit(N, prog, 'Circuit')
+    circ, gates = SO.build_circuit(N, prog, 'Circuit', _compile_before(case))
     if case['compile']:
         circ.compile()
     nmeas = sum(len(g['qubits']) for g in prog if g['kind'] == 'measure')
@@ -110,7 +119,7 @@ def f_circuit_forward(case):
         check(abs(dl - logp) < 1e-9, 'log2prob increment %r, trajectory probability 2^%r (record %s)' % (dl, logp, rec), 'log2prob')
         C.same_state_denotation(S, final, MO.rank_log2(final), 'state after Circuit.forward (record %s)' % rec)
         nt = nt or (rtg or (case['state']['r'] > 0 and nmeas > 0))
-    return {'nt': nt, 'labels': ['N=%d' % N, 'meas=%d' % min(nmeas, 5), 'r=%d' % case['state']['r'], 'compiled' if case['compile'] else 'plain']}
+    return {'nt': nt, 'labels': ['N=%d' % N, 'meas=%d' % min(nmeas, 5), 'r=%d' % case['state']['r'], 'compiled' if case['compile'] else 'plain'] + (['compiled-before-a-measure-was-appended'] if _compile_before(case) is not None else [])}
 
 
 def st_mprog(N, max_len):
@@ -121,7 +130,8 @@ def st_mprog(N, max_len):
 
 def st_circuit(hiN):
     return st.integers(1, hiN).flatmap(lambda N: st.fixed_dictionaries(
-        {'N': st.just(N), 'prog': st_mprog(N, 10), 'state': gen.st_state(N), 'seed': gen.st_seed(), 'compile': st.booleans(), 'reps': st.sampled_from([1, 1, 2])}))
+        {'N': st.just(N), 'prog': st_mprog(N, 10), 'state': gen.st_state(N), 'seed': gen.st_seed(), 'compile': st.booleans(), 'reps': st.sampled_from([1, 1, 2]),
+         'early': st.sampled_from([None, None, 0, 1, 2])}))
 
 
 def f_postselect(case):
@@ -174,7 +184,7 @@ def st_postselect(hiN):
 def f_backward(case):
     """forward on |psi> to obtain a record; then backward on sigma with {own record, explicit record, flipped, wrong length}."""
     N, prog = case['N'], case['prog']
-    circ, gates = SO.build_circuit(N, prog, 'Circuit')
+    circ, gates = SO.build_circuit(N, prog, 'Circuit', _compile_before(case))
     if case.get('compile'):
         circ.compile()
     nmeas = sum(len(g['qubits']) for g in prog if g['kind'] == 'measure')
@@ -247,7 +257,8 @@ def st_backward(hiN):
         {'N': st.just(N), 'prog': st_mprog(N, 8), 'state': st.fixed_dictionaries({'rows': gen.st_clifford_rows(N)}),
          'sigma': st.fixed_dictionaries({'rows': gen.st_clifford_rows(N)}), 'seed': gen.st_seed(),
          'mode': st.sampled_from(['own', 'same-state', 'same-state', 'explicit', 'flipped', 'wrong-length']),
-         'bits': st.lists(st.booleans(), min_size=1, max_size=6), 'compile': st.booleans(), 'reps': st.sampled_from([1, 2, 3])}))
+         'bits': st.lists(st.booleans(), min_size=1, max_size=6), 'compile': st.booleans(), 'reps': st.sampled_from([1, 2, 3]),
+         'early': st.sampled_from([None, None, 0, 1])}))
 
 
 FACETS = [
